@@ -113,7 +113,16 @@ def gen_cases(tier, seed):
         if r.random() < 0.08:
             args.append(r.choice(["-v", "-vv", "-vvv"]))
         args += ([files[0]["p"], "dst"] if single else ["-r", "src", "dst"])
-        yield {"xdev": r.random() < 0.15, "fs": "tmpfs" if r.random() < 0.3 else "ext4", "spec": [{"p": "src", "k": "d"}] + files, "pre": pre,
+        # several sources named one by one, some of them on the other filesystem: one run then sees two kinds of filesystem
+        mixed = None
+        if nfiles >= 2 and not single and r.random() < 0.3:
+            mixed = sorted(r.sample(range(nfiles), r.randint(1, nfiles - 1)))
+            order = list(range(nfiles))
+            r.shuffle(order)
+            args = args[:-3] + ["@SRC%d@" % k for k in order] + ["dst"]
+            if not any(e["p"] == "dst" for e in pre):
+                pre.insert(0, {"p": "dst", "k": "d"})
+        yield {"mixed": mixed, "xdev": mixed is None and r.random() < 0.15, "fs": "tmpfs" if r.random() < 0.3 else "ext4", "spec": [{"p": "src", "k": "d"}] + files, "pre": pre,
                "args": args, "single": single, "prior": prior, "driver": driver, "block": bname, "bsv": bsv,
                "workers": workers, "sched": r.choice(["os", "os", "pct", "jitter"]), "sseed": r.randrange(1 << 30)}
     for i in range(4 if tier == "quick" else 24):
@@ -156,7 +165,13 @@ def run_case(case):
         spec = [e for e in case["spec"] if not e.get("stamp")]
         # cross-device cases: the sources live on the other filesystem and are named by absolute path
         sroot = sb.other if case.get("xdev") else sb.root
-        tree.materialize(sroot, spec)
+        if case.get("mixed") is not None:
+            fl = [e for e in spec if e["k"] == "f"]
+            far = [fl[k]["p"] for k in case["mixed"]]
+            tree.materialize(sb.other, [e for e in spec if e["k"] == "d" or e["p"] in far])
+            tree.materialize(sb.root, [e for e in spec if e["k"] == "d" or e["p"] not in far])
+        else:
+            tree.materialize(sroot, spec)
         for e in case["spec"]:
             if e.get("stamp"):
                 write_stamped(os.path.join(b(sroot), b(e["p"])), e["size"], e["seed"])
@@ -166,6 +181,10 @@ def run_case(case):
         if case.get("xdev"):
             pre.update({k: v for k, v in tree.snapshot(sb.other).items() if k})
             args = [(sb.other + "/" + a) if (a == "src" or a.startswith("src/")) else a for a in args]
+        if case.get("mixed") is not None:
+            pre.update({k: v for k, v in tree.snapshot(sb.other).items() if k and k != "src"})
+            fl = [e for e in case["spec"] if e["k"] == "f"]
+            args = [((sb.other + "/" if int(a[4:-1]) in case["mixed"] else "") + fl[int(a[4:-1])]["p"]) if a.startswith("@SRC") else a for a in args]
         if case["sched"] == "os":
             run = core.run_plain(core.xcp_argv(args), sb.root, timeout=600)
         else:
@@ -181,6 +200,8 @@ def run_case(case):
             return res
         post = tree.snapshot(sb.root)
         srcs = [case["spec"][1]["p"]] if case["single"] else ["src"]
+        if case.get("mixed") is not None:
+            srcs = [e["p"] for e in case["spec"] if e["k"] == "f"]
         mapping, _ = model.map_sources(pre, sb.root, srcs, "dst")
         files = [m for m in mapping if m["rec"]["k"] == "f"]
         bad = model.check_mirror(pre, post, files)
@@ -189,16 +210,19 @@ def run_case(case):
             extra = ""
             if frag in ("bytes",):
                 m = next(m for m in files if m["src"] in msg)
-                off, kind = model.first_diff(os.path.join(b(sroot), b(m["src"])), os.path.join(b(sb.root), b(m["dst"])))
+                sp_ = os.path.join(b(sroot), b(m["src"]))
+                if not os.path.exists(sp_):
+                    sp_ = os.path.join(b(sb.other), b(m["src"]))
+                off, kind = model.first_diff(sp_, os.path.join(b(sb.root), b(m["dst"])))
                 extra = " first difference at offset %s (%s)" % (off, kind)
-            sig = "%s:block=%s:%s:%s" % (case["driver"], case["block"], "big" if case.get("big") else "xdev" if case.get("xdev") else "std", frag)
+            sig = "%s:block=%s:%s:%s" % (case["driver"], case["block"], "big" if case.get("big") else "xdev" if case.get("xdev") else "mixed-fs" if case.get("mixed") is not None else "std", frag)
             res["viol"].append({"sig": sig, "what": "exit 0 but " + msg + extra + " ; args=" + " ".join(case["args"])})
         specs = {e["p"]: e for e in case["spec"] if e["k"] == "f"}
         keys = set()
         for m in files:
             e = specs[m["src"]]
             keys.add((case["driver"], case["block"], case["workers"], size_class(e["size"], case["bsv"]), e.get("layout"),
-                      case["prior"], case["fs"] + ("->other" if case.get("xdev") else "")))
+                      case["prior"], case["fs"] + ("->other" if case.get("xdev") else "+other" if case.get("mixed") is not None else "")))
         for k in keys:
             res["evals"].append({"key": list(k) if total > 0 else None})
         if not keys:
